@@ -11,6 +11,7 @@ import (
 	"fmt"
 	"os"
 	"path/filepath"
+	"reflect"
 	"sort"
 	"strconv"
 	"strings"
@@ -312,8 +313,13 @@ func (e *c36Engine) Exec(ops []string) []string {
 			s.seq++
 			err1 := s.db.Set(key(padKey), []byte(strconv.Itoa(s.seq)))
 			s.db.VerifRaftwalRotate()
-			s.waitFlush()
+			// as-is the failed task is released at once; a tree that retries keeps it pending:
+			// give it a few attempts, then let the manifest work again and wait for the flush
+			for i := 0; i < 300 && s.db.VerifRaftwalFlushPending() != 0; i++ {
+				time.Sleep(500 * time.Microsecond)
+			}
 			s.g.failManifest.Store(false)
+			s.waitFlush()
 			s.seq++
 			err2 := s.db.Set(key(padKey), []byte(strconv.Itoa(s.seq)))
 			if err1 != nil || err2 != nil {
@@ -323,10 +329,16 @@ func (e *c36Engine) Exec(ops []string) []string {
 			out[i] = s.segs()
 		case "s.watchdog":
 			db := s.db
-			w := wal.NewWatchdog(wal.WatchdogConfig{
+			cfg := wal.WatchdogConfig{
 				Manager: db.WAL(), Interval: time.Hour, MinRemovable: 1, MaxBatch: 4,
 				RaftPointers: func() map[uint64]manifest.RaftLogPointer { return db.Manifest().RaftPointerSnapshot() },
-			})
+			}
+			// mirror db.go: when the tree has WatchdogConfig.LogSegment it is wired to the manifest
+			// log pointer (set through reflection so that the harness builds against both shapes)
+			if f := reflect.ValueOf(&cfg).Elem().FieldByName("LogSegment"); f.IsValid() && f.CanSet() {
+				f.Set(reflect.ValueOf(func() uint32 { return db.Manifest().Current().LogSegment }))
+			}
+			w := wal.NewWatchdog(cfg)
 			w.RunOnce()
 			out[i] = s.segs()
 		case "s.segs":
